@@ -6,6 +6,7 @@ import (
 	"go/constant"
 	"go/token"
 	"go/types"
+	"math"
 	"sort"
 	"strings"
 
@@ -668,7 +669,7 @@ func c10OptsRules(r *fw.Run, p *fw.Program) {
 // C10.json
 
 func c10JSONRules(r *fw.Run, p *fw.Program) {
-	ru := r.Rule("C10.json", "colorjson: the encoder has an arm for every gojq value type; int -> strconv.AppendInt(.., int64(v), 10), *big.Int -> v.Append(.., 10) (exact base 10), float64 -> encodeFloat64, string -> encodeString; encodeFloat64 prints NaN as null, clamps to +-MaxFloat64, formats with AppendFloat(.., 'f'|'e', -1, 64) (shortest exact) and may delete a character of the result only where it is proved to be the leading '0' of a two-digit negative exponent; _printColorJSON marshals its input through colorjson with a ValueFn; previewValue prints integers through PadFormat*(value, FormatBase, prefix) and floats with FormatFloat(.., 'g', -1, 64)", 20)
+	ru := r.Rule("C10.json", "colorjson: the encoder has an arm for every gojq value type; int -> strconv.AppendInt(.., int64(v), 10), *big.Int -> v.Append(.., 10) (exact base 10), float64 -> encodeFloat64, string -> encodeString; encodeFloat64 prints NaN as null, substitutes +-MaxFloat64 for f only under a guard implying f is beyond that constant on the same side of zero, formats with AppendFloat(.., 'f'|'e', -1, 64) (shortest exact) and may delete a character of the result only where it is proved to be the leading '0' of a two-digit negative exponent; _printColorJSON marshals its input through colorjson with a ValueFn; previewValue prints integers through PadFormat*(value, FormatBase, prefix) and floats with FormatFloat(.., 'g', -1, 64); indentation is a run of blanks or tabs, written as prefixes of that run or copied from the tail of the buffer's current contents", 23)
 	enc := p.Fn("(*internal/colorjson.Encoder).encode")
 	if enc == nil || enc.Blocks == nil || len(enc.Params) != 2 {
 		ru.Undecided("anchor:encode", "", "colorjson.(*Encoder).encode(v) not found")
@@ -839,6 +840,16 @@ func c10FloatRules(ru *fw.Rule, p *fw.Program, ef *ssa.Function) {
 			sawF = true
 			continue
 		}
+		if cl, isCall := lf.V.(*ssa.Call); isCall {
+			// max(-K, min(K, f)): decided by float:clamp
+			if ok, _ := c10FloatClampExpr(cl, f); ok {
+				sawF = true
+				continue
+			}
+			if k, ok := c10Copysign(cl, f); ok && math.Abs(k) == math.MaxFloat64 {
+				continue
+			}
+		}
 		c, ok := lf.V.(*ssa.Const)
 		if !ok || c.Value == nil || c.Value.Kind() != constant.Float {
 			valOK = false
@@ -850,6 +861,7 @@ func c10FloatRules(ru *fw.Rule, p *fw.Program, ef *ssa.Function) {
 		}
 	}
 	ru.Check(prec == -1 && bits == 64 && fmtOK && valOK && sawF, "float:append", p.Rel(af.Pos()), "AppendFloat(f or +-MaxFloat64, "+strings.Join(fmts, "|")+", -1, 64)", fmt.Sprintf("AppendFloat is called with precision %d, bit size %d, formats %v, value ok=%v: the printed number is not the shortest representation that parses back to the value", prec, bits, fmts, valOK && sawF))
+	c10FloatClamp(ru, p, ef, af)
 	// NaN -> null
 	nan := false
 	for _, c := range c10Conds(af.Block()) {
@@ -967,6 +979,250 @@ func c10FloatRules(ru *fw.Rule, p *fw.Program, ef *ssa.Function) {
 	if nStores == 0 {
 		ru.Ok("float:edit", p.Rel(ef.Pos()), "the formatted number is not edited")
 	}
+}
+
+// c10FloatFacts is what the branch conditions dominating a block say about one float64 value.
+type c10FloatFacts struct {
+	lo, hi       float64 // f >= lo, f <= hi (valid with hasLo/hasHi)
+	hasLo, hasHi bool
+	inf          bool // |f| == +Inf
+	notNaN       bool
+	notPosInf    bool
+	notNegInf    bool
+}
+
+func (ff c10FloatFacts) String() string {
+	var s []string
+	if ff.hasLo {
+		s = append(s, fmt.Sprintf("f >= %g", ff.lo))
+	}
+	if ff.hasHi {
+		s = append(s, fmt.Sprintf("f <= %g", ff.hi))
+	}
+	if ff.inf {
+		s = append(s, "IsInf(f)")
+	}
+	if ff.notPosInf {
+		s = append(s, "f != +Inf")
+	}
+	if ff.notNegInf {
+		s = append(s, "f != -Inf")
+	}
+	if len(s) == 0 {
+		return "{nothing about f}"
+	}
+	return "{" + strings.Join(s, "; ") + "}"
+}
+
+func c10FloatConst(v ssa.Value) (float64, bool) {
+	c, ok := v.(*ssa.Const)
+	if !ok || c.Value == nil || (c.Value.Kind() != constant.Float && c.Value.Kind() != constant.Int) {
+		return 0, false
+	}
+	if b, isB := c.Type().Underlying().(*types.Basic); !isB || b.Info()&types.IsFloat == 0 {
+		return 0, false
+	}
+	fv, _ := constant.Float64Val(c.Value)
+	return fv, true
+}
+
+// c10FloatFactsAt collects the facts about f known at block b (comparisons of f with float
+// constants, math.IsInf(f, sign), math.IsNaN(f)). Negated comparisons only count once NaN is excluded.
+func c10FloatFactsAt(b *ssa.BasicBlock, f ssa.Value) c10FloatFacts {
+	var ff c10FloatFacts
+	conds := c10Conds(b)
+	for _, c := range conds {
+		if cl, ok := c.V.(*ssa.Call); ok && fw.CalleeName(cl) == "math.IsNaN" && len(cl.Call.Args) == 1 && cl.Call.Args[0] == f && !c.True {
+			ff.notNaN = true
+		}
+	}
+	setLo := func(k float64) {
+		if !ff.hasLo || k > ff.lo {
+			ff.lo, ff.hasLo = k, true
+		}
+	}
+	setHi := func(k float64) {
+		if !ff.hasHi || k < ff.hi {
+			ff.hi, ff.hasHi = k, true
+		}
+	}
+	inf := math.Inf(1)
+	for _, c := range conds {
+		switch x := c.V.(type) {
+		case *ssa.Call:
+			if fw.CalleeName(x) == "math.IsInf" && len(x.Call.Args) == 2 && x.Call.Args[0] == f {
+				sgn, ok := c10ConstInt(x.Call.Args[1])
+				switch {
+				case !ok:
+				case !c.True:
+					ff.notPosInf = ff.notPosInf || sgn > 0
+					ff.notNegInf = ff.notNegInf || sgn < 0
+				case sgn > 0:
+					setLo(inf)
+				case sgn < 0:
+					setHi(-inf)
+				default:
+					ff.inf = true
+				}
+			}
+		case *ssa.BinOp:
+			op := x.Op
+			var k float64
+			var ok bool
+			switch {
+			case x.X == f:
+				k, ok = c10FloatConst(x.Y)
+			case x.Y == f:
+				k, ok = c10FloatConst(x.X)
+				// k op f  ==  f op' k
+				switch op {
+				case token.LSS:
+					op = token.GTR
+				case token.LEQ:
+					op = token.GEQ
+				case token.GTR:
+					op = token.LSS
+				case token.GEQ:
+					op = token.LEQ
+				}
+			}
+			if !ok {
+				continue
+			}
+			if !c.True {
+				if !ff.notNaN && op != token.NEQ {
+					continue // !(f >= k) also holds for NaN
+				}
+				switch op {
+				case token.LSS:
+					op = token.GEQ
+				case token.LEQ:
+					op = token.GTR
+				case token.GTR:
+					op = token.LEQ
+				case token.GEQ:
+					op = token.LSS
+				case token.EQL:
+					op = token.NEQ
+				case token.NEQ:
+					op = token.EQL
+				}
+			}
+			switch op {
+			case token.GEQ, token.GTR:
+				setLo(k)
+			case token.LEQ, token.LSS:
+				setHi(k)
+			case token.EQL:
+				setLo(k)
+				setHi(k)
+			}
+		}
+	}
+	return ff
+}
+
+// c10FloatClampExpr: v is f, or min(v', K) with K >= MaxFloat64, or max(v', K) with K <= -MaxFloat64
+// (builtin or package math), i.e. a value that differs from f only for +-Inf.
+func c10FloatClampExpr(v, f ssa.Value) (bool, string) {
+	if v == f {
+		return true, ""
+	}
+	c, ok := v.(*ssa.Call)
+	if !ok {
+		return false, "value " + v.String()
+	}
+	kind := ""
+	switch {
+	case len(c.Call.Args) != 2:
+	case fw.IsBuiltinCall(c, "min"), fw.CalleeName(c) == "math.Min":
+		kind = "min"
+	case fw.IsBuiltinCall(c, "max"), fw.CalleeName(c) == "math.Max":
+		kind = "max"
+	}
+	if kind == "" {
+		return false, "call " + fw.CalleeName(c)
+	}
+	for i := 0; i < 2; i++ {
+		k, isK := c10FloatConst(c.Call.Args[i])
+		if !isK {
+			continue
+		}
+		if (kind == "min" && k < math.MaxFloat64) || (kind == "max" && k > -math.MaxFloat64) {
+			return false, fmt.Sprintf("%s(f, %g) replaces finite values of f", kind, k)
+		}
+		return c10FloatClampExpr(c.Call.Args[1-i], f)
+	}
+	return false, kind + " without a constant bound"
+}
+
+// c10Copysign: v is math.Copysign(K, f) with a constant K.
+func c10Copysign(v, f ssa.Value) (float64, bool) {
+	c, ok := v.(*ssa.Call)
+	if !ok || fw.CalleeName(c) != "math.Copysign" || len(c.Call.Args) != 2 || c.Call.Args[1] != f {
+		return 0, false
+	}
+	return c10FloatConst(c.Call.Args[0])
+}
+
+// c10FloatClamp: JSON has no infinities, so encodeFloat64 may substitute a finite constant for f
+// before formatting; the printed number then is that constant. It equals the value (up to the
+// documented clamp of +-Inf to +-MaxFloat64) only if the guard the substitution sits under
+// implies that f is at least as large in magnitude and of the same sign: f >= c for c > 0,
+// f <= c for c < 0 (directly, or as IsInf(f, sign) / IsInf(f, 0) together with the sign of f).
+// The builtin or math min/max forms max(-K, min(K, f)) are accepted when K >= MaxFloat64.
+func c10FloatClamp(ru *fw.Rule, p *fw.Program, ef *ssa.Function, af *ssa.Call) {
+	f := ssa.Value(ef.Params[1])
+	clampExpr := func(v ssa.Value) (bool, string) { return c10FloatClampExpr(v, f) }
+	n, bad := 0, ""
+	for _, lf := range c10PhiLeaves(af.Call.Args[1]) {
+		if lf.V == f {
+			continue
+		}
+		c, isC := c10FloatConst(lf.V)
+		if k, isCS := c10Copysign(lf.V, f); isCS {
+			// Copysign(K, f) has f's sign by construction; the guard must imply |f| >= K
+			n++
+			k = math.Abs(k)
+			var ff c10FloatFacts
+			if lf.Pred != nil {
+				ff = c10FloatFactsAt(lf.Pred, f)
+			}
+			if !(ff.inf || (ff.hasLo && ff.lo >= k) || (ff.hasHi && ff.hi <= -k)) {
+				bad = fmt.Sprintf("Copysign(%g, f) is substituted for f where only %s is known", k, ff.String())
+			}
+			continue
+		}
+		if !isC {
+			if ok, why := clampExpr(lf.V); ok {
+				n++
+			} else {
+				bad = why
+			}
+			continue
+		}
+		n++
+		if lf.Pred == nil {
+			bad = fmt.Sprintf("the constant %g is formatted unconditionally", c)
+			continue
+		}
+		ff := c10FloatFactsAt(lf.Pred, f)
+		ok := false
+		switch {
+		case c > 0:
+			// |f| == Inf and f is not -Inf (bounded below, or IsInf(f,-1) refuted): f == +Inf
+			ok = (ff.hasLo && ff.lo >= c) || (ff.inf && (ff.notNegInf || (ff.hasLo && ff.lo > math.Inf(-1))))
+		case c < 0:
+			ok = (ff.hasHi && ff.hi <= c) || (ff.inf && (ff.notPosInf || (ff.hasHi && ff.hi < math.Inf(1))))
+		default:
+			ok = ff.hasLo && ff.hasHi && ff.lo == 0 && ff.hi == 0
+		}
+		if !ok {
+			bad = fmt.Sprintf("%g is substituted for f where only %s is known", c, ff.String())
+		}
+	}
+	ru.Check(bad == "", "float:clamp", p.Rel(af.Pos()), fmt.Sprintf("%d substitutions for f, each under a guard implying f is beyond the constant on the same side of zero", n),
+		"encodeFloat64: "+bad+": a value of the other sign (e.g. -Inf) or of smaller magnitude is printed as that constant, the JSON number does not equal the value")
 }
 
 func c10Ch(k int64) string {
